@@ -209,5 +209,51 @@ def run(chk):
                         'spinning is detected by a budget of reads after end of stream, blocking by a read with nothing available']
 
 
+def whole_streams(chk, suite):
+    """The reference conversations without any cut, through the real Connection and reactors under several arrivals (one chunk,
+    frame by frame, random cuts): every frame is delivered once, in order, nothing is reported.  (Used by C01: the stream
+    survives compression and the cipher being switched on in the middle of a read batch.)"""
+    from minecraft.networking.connection import Connection
+    from minecraft.networking.packets import Packet
+    rng = chk.rng
+    secret = bytes(range(100, 116))
+    S = streams(rng, secret)
+    enc = S['login+encryption']
+    frames, cut = enc['conns'][0]
+    plain = b''.join(frames)
+    ct = bytes(run_model([('mc_encrypt', [secret, [plain[cut:]]])])[0][0])
+    enc['wire'] = [plain[:cut] + ct]
+    for name in ('login+compression', 'login+encryption', 'play'):
+        sc = S[name]
+        wire = (sc.get('wire') or [b''.join(fr) for fr, _c in sc['conns']])[0]
+        frames = sc['conns'][0][0]
+        for arrival in ('whole', 'frame', 'random', 'random', 'bytewise'):
+            if arrival == 'whole':
+                chunks = [wire]
+            elif arrival == 'frame':
+                chunks, o = [], 0
+                for f in frames:
+                    chunks.append(wire[o:o + len(f)])
+                    o += len(f)
+            elif arrival == 'bytewise':
+                chunks = [wire[i:i + 1] for i in range(len(wire))]
+            else:
+                cuts = sorted(set(rng.randrange(1, len(wire)) for _ in range(rng.randrange(1, 9))))
+                chunks = [wire[a:b] for a, b in zip([0] + cuts, cuts + [len(wire)])]
+            net = sim.Net([sim.Server(chunks, end='idle'), sim.Server([], end='idle')], urandom=sc.get('secret')).install()
+            delivered, excs = [], []
+            try:
+                conn = Connection('localhost', 25565, username='user', allowed_versions=sc.get('allowed', [sc['pv']]), handle_exception=lambda e, i: excs.append(e))
+                conn.register_packet_listener(lambda p: delivered.append(p.id), Packet, early=True)
+                conn.connect()
+                net.run_threads(conn)
+            finally:
+                net.uninstall()
+            chk.count(suite, [name, arrival, len(chunks)], True)
+            if len(delivered) != len(frames) or excs:
+                chk.violation(suite, '%s:%s:%s' % (suite, name, arrival), {'case': {'stream': name, 'arrival': arrival, 'chunks': len(chunks)}, 'observed': {'delivered': len(delivered), 'errors': [exn_name(e) for e in excs]}},
+                              '%s arriving %s (%d chunks): %d of %d frames delivered, errors %s' % (name, arrival, len(chunks), len(delivered), len(frames), [exn_name(e) for e in excs]))
+
+
 def replay(chk, rp):
     run(chk)
